@@ -986,7 +986,7 @@ def broadcast(a, b):
             else:
                 if x != y and 1 not in (x, y):
                     raise Finding(f"shape mismatch in a broadcast: {x} vs {y}")
-                axes.append(max(x, y)); sa.append('keep'); sb.append('keep')
+                axes.append(x if y == 1 else y); sa.append('keep'); sb.append('keep')      # 0 against 1 gives 0, like numpy
 
     def reshape(t, ax_t, spec):
         data = t.data
@@ -1184,7 +1184,14 @@ def _reduce(a, axis, kind):
         if isinstance(ax, int):
             ck = a.cidx(k)
             if ax == 0:
-                raise Top("reduction over an empty axis")
+                if kind != 'Sum':
+                    raise Top("mean over an empty axis")
+                rest = tuple(n for i, n in enumerate(a.data.shape) if i != ck)
+                data = np.empty(rest, dtype=object)
+                for i in np.ndindex(rest):
+                    data[i] = Poly()                       # the empty sum
+                a = AT(a.axes[:k] + a.axes[k + 1:], data)
+                continue
             data = np.sum(a.data, axis=ck)
             if not isinstance(data, np.ndarray):
                 data = _box(data)
